@@ -233,6 +233,25 @@ def fixture_of(cfg):
     """the fixture class for a configuration: with `pool`, threads that do nothing but `while True: conn.serve(None)` - the loop
     of Connection.serve_threaded()'s threads - share the connection with the clients"""
     pool = tuple(cfg.get("pool", ()))
+    if cfg.get("serve_threaded"):
+        n_workers = cfg["serve_threaded"]
+
+        class ServeThreadedFixture(Fixture):
+            """a thread of the program sits in the real Connection.serve_threaded(n): its workers are managed threads p1..pn"""
+            def __init__(self, *a, **k):
+                Fixture.__init__(self, *a, **k)
+                from rpyc.core import protocol
+                counter = [0]
+                old = protocol.spawn
+
+                def spawn(fn, *fa, **fk):
+                    counter[0] += 1
+                    return self.sched.spawn("p%d" % counter[0], fn, *fa, **fk)
+                self._saved.append((protocol, "spawn", old))
+                protocol.spawn = spawn
+                self.st = self.sched.spawn("st", self.conn.serve_threaded, n_workers)
+                self.drain_threads = [self.st]
+        return ServeThreadedFixture
     if not pool:
         return Fixture
 
@@ -377,6 +396,16 @@ def run_impl(reqs, bg, chooser, lines=False, max_steps=6000, max_bg_loops=12, eo
                 ev["recvlock"] = fx.owner(fx.conn._recvlock)
                 ev["condlock"] = fx.owner(fx.conn._recv_event._lock)
             trace.append(ev)
+        for extra in getattr(fx, "drain_threads", ()):
+            # threads of the program that have work left when the clients are done (serve_threaded() joining its workers and
+            # closing the connection on its way out): let them, and whoever they wait for, finish
+            for _ in range(3000):
+                if extra.done:
+                    break
+                mine = [c for c in thread_choices(s) if c[0] not in fx.clients.values()]
+                if not mine:
+                    break
+                s.step(*mine[0])
         if callbacks and fx.bg is not None:
             # the clients have their results; the background thread may still be inside the dispatch of the last reply (the
             # callbacks run after the result is published): let it finish that before the callbacks are counted
@@ -446,7 +475,7 @@ def judge(res, reqs):
     return c13, c14
 
 
-def judge_eof(res, reqs, want=None):
+def judge_eof(res, reqs, want=None, must_close=False):
     """C11 for a connection shared by threads: once the stream has ended nobody hangs, every request either got its own reply
     or fails with EOFError, and the connection is closed"""
     bad = []
@@ -466,6 +495,8 @@ def judge_eof(res, reqs, want=None):
                 bad.append(("eof-crossed", "request %s of %s completed with %r" % (r, t, o[1])))
     for n, e in res["excs"].items():
         bad.append(("eof-exception", "thread %s died with %s" % (n, e)))
+    if must_close and res.get("eof") and not res.get("closed"):
+        bad.append(("eof-not-closed", "the stream ended and serve_threaded() is over, yet the connection does not report closed"))
     # whether the connection's own `closed` flag is set is judged by the single-threaded runs of C11: here a request whose
     # *send* hits the dead transport is told so by the write path, which closes the stream and leaves the flag to the next serve()
     return bad
@@ -484,7 +515,7 @@ def explore_eof(chk, cfgname, on_bad, n_random=60, configs=None, fixture=None, w
         res = run_impl(cfg["reqs"], cfg["bg"], ch, eof=True, fixture=fixture or fixture_of(cfg))
         chk.evaluated()
         n += 1
-        bad = judge_eof(res, cfg["reqs"], want)
+        bad = judge_eof(res, cfg["reqs"], want, must_close=bool(cfg.get("serve_threaded")))
         chk.distinct(("eof-sched", cfgname, tuple((e.get("t"), e.get("op"), e.get("wake")) for e in res["trace"])))
         if bad:
             on_bad(bad, {"mode": "eof-indices", "config": cfgname, "indices": ch.record})
@@ -510,6 +541,8 @@ CONFIGS = {
     "2p": dict(reqs={"t1": ["a1"], "t2": ["b1"]}, bg=False, pool=("p1",)),
     "1pp": dict(reqs={"t1": ["a1", "a2"]}, bg=False, pool=("p1", "p2")),
     "2pp": dict(reqs={"t1": ["a1"], "t2": ["b1"]}, bg=False, pool=("p1", "p2")),
+    # the real Connection.serve_threaded(2) running in a thread of the program (C11: it closes the connection on every way out)
+    "2st": dict(reqs={"t1": ["a1"], "t2": ["b1"]}, bg=False, serve_threaded=2),
 }
 
 
